@@ -560,6 +560,15 @@ class Gen(object):
         if self.has('int_named') and rng.random() < 0.2 and not force_wide:
             named = [('nn{}'.format(self.next()), v)
                      for v in sorted(rng.sample(range(-3, 12), 2))]
+
+            # A named number with the name of a visible value (and another
+            # number): which one a bound means is a matter of scope.
+            values = [(n, v) for n, v in self.visible_values()
+                      if v not in (named[0][1], named[1][1])]
+
+            if values and self.has('int_valueref') and rng.random() < 0.3:
+                index = rng.randrange(2)
+                named[index] = (rng.choice(values)[0], named[index][1])
             text += ' {{ {} }}'.format(
                 ', '.join('{}({})'.format(n, v) for n, v in named))
 
@@ -965,6 +974,13 @@ class Gen(object):
 
         if kind == 'BOOLEAN':
             return rng.choice(['TRUE', 'FALSE'])
+        elif kind == 'REAL':
+            return rng.choice(['1.5', '0', '-2.25', 'PLUS-INFINITY',
+                               'MINUS-INFINITY'])
+        elif kind == 'UTCTime':
+            return rng.choice(['"9912312359Z"', '"0001010000Z"'])
+        elif kind == 'GeneralizedTime':
+            return rng.choice(['"20001231235959Z"', '"19991231235959.5Z"'])
         elif kind == 'INTEGER':
             lo, hi = target.lo, target.hi
 
